@@ -475,6 +475,11 @@ def assemble(repo, spec, rows=None, canary=None, opts=None):
                     if k >= len(loops):
                         raise ToolError('lost anchor: %s has no loop %d' % (path, k))
                     ed.insert(loops[k]['body_open'], '\n' + t + indent + '    ', prio=0)
+                    if loops[k]['kind'] == 'for' and re.search(r'\bghost_iter\b', t):
+                        # name the for-loop's ghost iterator (Verus syntax `for x in NAME: range`); additive
+                        hm = re.match(r'for\s+.+?\s+in\s+', src[loops[k]['kw']:loops[k]['body_open']], re.S)
+                        if not hm: raise ToolError('cannot name the iterator of loop %d in %s' % (k, path))
+                        ed.insert(loops[k]['kw'] + hm.end(), 'ghost_iter: ', prio=0)
                 for w, t in e['proofs'].items():
                     if w == 'body_start':
                         ed.insert(it['body_start'] + 1, '\n' + t, prio=0)
@@ -733,4 +738,5 @@ class Row:
         for s, f, k in STATE_FIELDS:
             if s in touched or s in raw_covered: continue
             cl('S1.%s == S0.%s' % (s, s), 'frame.%s' % s, 'C10')
+        cl('state_wf(S1)', 'wf.buffers', 'C17,C10')
         return '\n'.join(out) + '\n'
